@@ -20,7 +20,7 @@ RE_ASSIGN_OP = re.compile(r"=")  # TODO: scan until ch?
 RE_DROP = re.compile(r"DROP(?![_a-zA-Z0-9])")
 RE_GRAMMAR_DOC = re.compile(r"//!")
 RE_IDENTIFIER = re.compile(r"[_a-zA-Z][_a-zA-Z0-9]*")
-RE_INTEGER = re.compile(r"-?[0-9]+")
+RE_INTEGER = re.compile(r"[0-9]+|-0*[1-9][0-9]*")
 RE_MODIFIER = re.compile(r"[_@\$!]")
 RE_NEWLINE = re.compile(r"\r?\n")
 RE_NUMBER = re.compile(r"[0-9]+")
@@ -33,7 +33,7 @@ RE_PUSH_LITERAL = re.compile(r"PUSH_LITERAL")
 RE_RANGE_OP = re.compile(r"\.\.")
 RE_RULE_DOC = re.compile(r"///")
 RE_TAG = re.compile(r"#[_a-zA-Z][_a-zA-Z0-9]*")
-RE_WHITESPACE = re.compile(r"[ \t\n\r]+")
+RE_WHITESPACE = re.compile(r"(?: |\t|\n|\r\n)+")
 RE_CHAR = re.compile(
     r"'\\[\\\"rnt0']'|'\\x[0-9a-fA-F]{2}'|'\\u\{[0-9a-fA-F]{2,6}\}'|'(?s:.)'"
 )
@@ -318,9 +318,12 @@ class Scanner:
 
         if value := self.scan(RE_PEEK):
             self.emit(TokenKind.PEEK, value)
+            pos = self.pos
+            self.skip_trivia()
             if self.peek() == "[":
                 self.emit(TokenKind.LBRACKET, self.next())
             else:
+                self.pos = self.start = pos
                 return True
 
             self.skip_trivia()
@@ -334,6 +337,8 @@ class Scanner:
             else:
                 self.error("expected a range operator")
 
+            self.skip_trivia()
+
             if value := self.scan(RE_INTEGER):
                 self.emit(TokenKind.INTEGER, value)
                 self.skip_trivia()
@@ -341,7 +346,7 @@ class Scanner:
             if self.peek() == "]":
                 self.emit(TokenKind.RBRACKET, self.next())
             else:
-                self.error("expected a closing paren")
+                self.error("expected a closing bracket")
 
             return True
 
@@ -450,6 +455,7 @@ class Scanner:
         # Skip '^'.
         self.pos += 1
         self.start = self.pos
+        self.skip_trivia()
 
         if self.peek() != '"':
             self.error("expected a string literal")
